@@ -309,6 +309,161 @@ theorem facetLoss_dup_rows (w : ℚ) (s : FacetSpec) (hasTime : Bool) (uval : Li
   simp only [facetPts, List.map_append]
   exact mean_append_self _
 
+/-! ### separable networks: the mean over the tensor grid is the mean over the facet's points -/
+
+theorem mean_map_const {α : Type} (l : List α) (c : ℚ) (hl : l ≠ []) : mean (l.map fun _ => c) = c := by
+  have hn : (l.length : ℚ) ≠ 0 := by
+    have : l.length ≠ 0 := by simpa using hl
+    exact_mod_cast this
+  simp only [mean, List.map_const', List.sum_replicate, List.length_replicate, nsmul_eq_mul]
+  field_simp
+
+/-- **a constant coordinate column only contributes multiplicity**: replacing a column all of whose
+    entries equal `p` by the single entry `p` leaves the mean over the tensor grid unchanged. -/
+theorem cart_mean_const_col (val : List ℚ → ℚ) (pre : List (List ℚ)) (c : List ℚ) (p : ℚ)
+    (post : List (List ℚ)) (hc : ∀ a ∈ c, a = p) (hne : c ≠ []) :
+    mean ((cart (pre ++ c :: post)).map val) = mean ((cart (pre ++ [p] :: post)).map val) := by
+  induction pre generalizing val with
+  | nil =>
+    simp only [List.nil_append, cart, List.map_flatMap, List.flatMap_cons, List.flatMap_nil,
+      List.append_nil]
+    rw [mean_flatMap_const c _ (cart post).length (by intro t; simp)]
+    have : (c.map fun t => mean (List.map val (List.map (fun q => t :: q) (cart post)))) =
+        c.map fun _ => mean (List.map val (List.map (fun q => p :: q) (cart post))) := by
+      apply List.map_congr_left
+      intro a ha
+      rw [hc a ha]
+    rw [this, mean_map_const c _ hne]
+  | cons col pre ih =>
+    simp only [List.cons_append, cart, List.map_flatMap, List.map_map]
+    rw [mean_flatMap_const col _ (cart (pre ++ c :: post)).length (by intro t; simp),
+      mean_flatMap_const col _ (cart (pre ++ [p] :: post)).length (by intro t; simp)]
+    congr 1
+    apply List.map_congr_left
+    intro a _
+    exact ih (val ∘ fun q => a :: q)
+
+theorem flatMap_single {α β : Type} (f : α → β) (l : List α) : (l.flatMap fun a => [f a]) = l.map f := by
+  induction l with
+  | nil => rfl
+  | cons a l ih => simp [List.flatMap_cons, ih]
+
+theorem cart_pin_first (c : ℚ) (ys : List ℚ) : cart [[c], ys] = ys.map fun y => [c, y] := by
+  simp [cart, flatMap_single]
+
+theorem cart_pin_second (xs : List ℚ) (c : ℚ) : cart [xs, [c]] = xs.map fun x => [x, c] := by
+  induction xs with
+  | nil => simp [cart]
+  | cons x xs ih =>
+    simp only [cart, List.flatMap_cons, List.flatMap_nil, List.append_nil, List.map_cons, List.map_nil] at ih ⊢
+    rw [ih]
+    simp
+
+theorem gridPts_two (pts : List (List ℚ)) :
+    gridPts 2 pts = cart [pts.map fun q => q.getD 0 0, pts.map fun q => q.getD 1 0] := rfl
+
+theorem gridPts_three (pts : List (List ℚ)) :
+    gridPts 3 pts =
+      cart [pts.map fun q => q.getD 0 0, pts.map fun q => q.getD 1 0, pts.map fun q => q.getD 2 0] := rfl
+
+/-- **2-D facet with its first coordinate pinned (xmin, xmax)**: the mean over the SPINN grid is the
+    mean over the facet's own points. -/
+theorem grid_mean_eq_rows_first_pinned (val : List ℚ → ℚ) (pts : List (List ℚ)) (c : ℚ)
+    (h : ∀ q ∈ pts, ∃ y, q = [c, y]) (hne : pts ≠ []) :
+    mean ((gridPts 2 pts).map val) = mean (pts.map val) := by
+  have hcol : ∀ a ∈ pts.map (fun q => q.getD 0 0), a = c := by
+    intro a ha
+    obtain ⟨q, hq, rfl⟩ := List.mem_map.1 ha
+    obtain ⟨y, rfl⟩ := h q hq
+    simp
+  have hg := cart_mean_const_col val [] (pts.map fun q => q.getD 0 0) c [pts.map fun q => q.getD 1 0]
+    hcol (by simpa using hne)
+  rw [gridPts_two]
+  simp only [List.nil_append] at hg
+  rw [hg, cart_pin_first]
+  congr 1
+  rw [List.map_map, List.map_map]
+  apply List.map_congr_left
+  intro q hq
+  obtain ⟨y, rfl⟩ := h q hq
+  simp
+
+/-- **facet with its second coordinate pinned (2-D ymin, ymax; 1-D non-stationary rows `(t, x_facet)`)**:
+    the mean over the SPINN grid is the mean over the rows. -/
+theorem grid_mean_eq_rows_second_pinned (val : List ℚ → ℚ) (pts : List (List ℚ)) (c : ℚ)
+    (h : ∀ q ∈ pts, ∃ x, q = [x, c]) (hne : pts ≠ []) :
+    mean ((gridPts 2 pts).map val) = mean (pts.map val) := by
+  have hcol : ∀ a ∈ pts.map (fun q => q.getD 1 0), a = c := by
+    intro a ha
+    obtain ⟨q, hq, rfl⟩ := List.mem_map.1 ha
+    obtain ⟨y, rfl⟩ := h q hq
+    simp
+  have hg := cart_mean_const_col val [pts.map fun q => q.getD 0 0] (pts.map fun q => q.getD 1 0) c []
+    hcol (by simpa using hne)
+  rw [gridPts_two]
+  simp only [List.cons_append, List.nil_append] at hg
+  rw [hg, cart_pin_second]
+  congr 1
+  rw [List.map_map, List.map_map]
+  apply List.map_congr_left
+  intro q hq
+  obtain ⟨y, rfl⟩ := h q hq
+  simp
+
+/-- **non-stationary 2-D facet**: the SPINN grid of rows `(t, x, y)` with one space coordinate pinned
+    is (times of the batch) × (the pinned value) × (free coordinates of the rows): the points at
+    which `Holds.C04` states the condition for a separable network. -/
+theorem grid_mean_times_cross (val : List ℚ → ℚ) (pts : List (List ℚ)) (c : ℚ) (hne : pts ≠ []) :
+    ((∀ q ∈ pts, q.getD 1 0 = c) →
+      mean ((gridPts 3 pts).map val) =
+        mean ((cart [pts.map fun q => q.getD 0 0, [c], pts.map fun q => q.getD 2 0]).map val)) ∧
+    ((∀ q ∈ pts, q.getD 2 0 = c) →
+      mean ((gridPts 3 pts).map val) =
+        mean ((cart [pts.map fun q => q.getD 0 0, pts.map fun q => q.getD 1 0, [c]]).map val)) := by
+  constructor
+  · intro h
+    have hcol : ∀ a ∈ pts.map (fun q => q.getD 1 0), a = c := by
+      intro a ha
+      obtain ⟨q, hq, rfl⟩ := List.mem_map.1 ha
+      exact h q hq
+    have hg := cart_mean_const_col val [pts.map fun q => q.getD 0 0] (pts.map fun q => q.getD 1 0) c
+      [pts.map fun q => q.getD 2 0] hcol (by simpa using hne)
+    rw [gridPts_three]
+    simpa using hg
+  · intro h
+    have hcol : ∀ a ∈ pts.map (fun q => q.getD 2 0), a = c := by
+      intro a ha
+      obtain ⟨q, hq, rfl⟩ := List.mem_map.1 ha
+      exact h q hq
+    have hg := cart_mean_const_col val [pts.map fun q => q.getD 0 0, pts.map fun q => q.getD 1 0]
+      (pts.map fun q => q.getD 2 0) c [] hcol (by simpa using hne)
+    rw [gridPts_three]
+    simpa using hg
+
+/-- the SPINN boundary term is again the sum over the facets that carry a condition -/
+theorem boundarySpinn_eq_sum_facets (w : ℚ) (spec : Spec) (hasTime : Bool) (uval : List ℚ → List ℚ)
+    (jac : List ℚ → List (List ℚ)) (b : Border) :
+    boundarySpinn w spec hasTime uval jac b =
+      ((List.range (spec.facets b).length).map fun k =>
+        contribution (fun s j => facetLossSpinn w s hasTime uval jac b j) (spec.facets b) k).sum := by
+  unfold boundarySpinn
+  rw [sumFacets_eq_sum_range]
+  simp
+
+/-- **stationary 2-D SPINN = pointwise form**: on a facet whose pinned coordinate is constant, the
+    SPINN facet term equals the row-by-row facet term (the property's mean over the facet's points). -/
+theorem facetLossSpinn_eq_facetLoss_2d (w : ℚ) (s : FacetSpec) (uval : List ℚ → List ℚ)
+    (jac : List ℚ → List (List ℚ)) (b : Border) (k : Nat) (c : ℚ) (hb : nCoords b = 2)
+    (hne : b ≠ [])
+    (h : (∀ q ∈ facetPts b k, ∃ y, q = [c, y]) ∨ (∀ q ∈ facetPts b k, ∃ x, q = [x, c])) :
+    facetLossSpinn w s false uval jac b k = facetLoss w s false uval jac b k := by
+  unfold facetLossSpinn facetLoss
+  rw [hb]
+  have hne' : facetPts b k ≠ [] := by simpa [facetPts] using hne
+  rcases h with h | h
+  · exact grid_mean_eq_rows_first_pinned _ _ c h hne'
+  · exact grid_mean_eq_rows_second_pinned _ _ c h hne'
+
 /-! ### non-vacuity -/
 
 /-- the 2-D table on the four facets -/
@@ -336,5 +491,9 @@ example : nFacets [[[-1, 2, 0, 1], [0, 1, -1, 2]]] = 4 := rfl
 example : productRows [5, 7] [[[-1, 2], [3, 4]]] =
     [[[5, 5], [-1, 2], [3, 4]], [[7, 7], [-1, 2], [3, 4]]] := by
   simp [productRows, nFacets]
+
+/-- the grid of a 2-point xmin facet: each of the facet's points twice -/
+example : gridPts 2 [[-1, 5], [-1, 7]] = [[-1, 5], [-1, 7], [-1, 5], [-1, 7]] := by
+  rw [gridPts_two]; simp [cart]
 
 end Jinns.Boundary
